@@ -243,13 +243,29 @@ def run_real(scn, h, cis):
         outcome = 'internal_error:' + type(e).__name__
     finally:
         p._map_guard = False
-        for sw in drv.workers.values():
-            for end in (sw.pipe.child_end, sw.pipe.parent_end):
-                try:
-                    end.close()
-                except OSError:
-                    pass
+    second = None
+    if scn.get('second_run') and outcome in ('ok', 'poolerror') and any(sw.st == 'run' for sw in drv.workers.values()):
+        # the pool is reusable: a later run() must return results of ITS inputs only (no bookkeeping left behind)
+        n2 = scn['n'] or 2
+        drv.budget += 40 * (n2 + 3) * (len(scn['W']) + 1)
+        drv.deviated = True
+        try:
+            r2 = p.run(iter(range(101, 101 + n2)), worker_extra_pending_inputs=scn['extra'])
+            second = {'outcome': 'ok', 'ret': [x - 100 if (isinstance(x, int) and 101 <= x <= 100 + n2) else 0 for x in (r2 or [])], 'n': n2}
+        except pool_mod.PoolError as e:
+            second = {'outcome': 'poolerror', 'ret': [x - 100 if (isinstance(x, int) and 101 <= x <= 100 + n2) else 0 for x in (e.partial_results or [])], 'n': n2}
+        except Hang:
+            second = {'outcome': 'hang', 'ret': [], 'n': n2}
+        except Exception as e:  # noqa
+            second = {'outcome': 'internal_error:' + type(e).__name__, 'ret': [], 'n': n2}
+    for sw in drv.workers.values():
+        for end in (sw.pipe.child_end, sw.pipe.parent_end):
+            try:
+                end.close()
+            except OSError:
+                pass
     n = scn['n']
+    drv.second = second
     obs = {'outcome': outcome,
            'ret': [x if (isinstance(x, int) and 1 <= x <= n) else 0 for x in ret],
            'alive': sorted(w for w, sw in drv.workers.items() if sw.st == 'run'),
@@ -262,7 +278,7 @@ def run_real(scn, h, cis):
 # configurations: (label, cfg overrides, python scenario)
 def _scn(W, n, extra, retry, poison=(), bad=(), refuse=()):
     return {'W': list(W), 'n': n, 'extra': extra, 'retry': 'T' if retry else 'F', 'poison': list(poison),
-            'bad': list(bad), 'refuse': [list(x) for x in refuse]}
+            'bad': list(bad), 'refuse': [list(x) for x in refuse], 'second_run': bool(refuse) or bool(bad)}
 
 
 def _configs(tier):
@@ -276,8 +292,11 @@ def _configs(tier):
     add('W2 N3 extra1 kill1')
     add('W2 N3 extra1 poison{2} bad{1} kill1', poison=(2,), bad=(1,))
     add('W2 N3 extra1 noretry poison{2} kill1', retry=False, poison=(2,))
-    add('W3 N4 extra1 kill1', W=(1, 2, 3), n=4)
+    add('W3 N3 extra1 kill1', W=(1, 2, 3), n=3)
+    add('W3 N1 extra1 bad{1,2}', W=(1, 2, 3), n=1, bad=(1, 2), kills=0)       # fewer inputs than worker slots: untouched idle workers
+    add('W3 N2 extra0 bad{1} kill1', W=(1, 2, 3), n=2, extra=0, bad=(1,))
     if tier == 'thorough':
+        add('W3 N4 extra1 kill1', W=(1, 2, 3), n=4)
         add('W2 N3 extra0 kill1', extra=0)
         add('W2 N4 extra2 kill1', n=4, extra=2)
         add('W2 N3 extra1 poison{2}', poison=(2,), kills=0)
@@ -300,9 +319,90 @@ def _configs(tier):
     return c
 
 
+TRACE_CFG = '''INIT TInit
+NEXT TNext
+CONSTANTS
+  defaultInitValue = defaultInitValue
+  W = {1, 2, 3}
+  N = %d
+  Extra = 1
+  Retry = TRUE
+  Poison = %s
+  Bad = {}
+  MaxKills = 2
+  Refuse <- NoPairs
+  MaxDyRaise = 2
+  IgnoreLate = TRUE
+  OfferOnce = TRUE
+  Reduced = FALSE
+  DetOrder = FALSE
+  Hist = FALSE
+INVARIANT TAccept
+CHECK_DEADLOCK FALSE
+'''
+
+
+def real_worker_traces(tier, ev, drift):
+    """Pools of 3 real workers of each kind, SIGKILL at seeded callback indices, poison input 4;
+    every callback trace must be a behaviour of Pool.tla (PoolTrace.tla)."""
+    import subprocess
+    from concurrent.futures import ThreadPoolExecutor
+    from ..common import PY, REPO, VERIF, sub_scratch
+    runner = os.path.join(os.path.dirname(os.path.abspath(__file__)), '_pool_real_runner.py')
+    N = 5
+    nseeds = 2 if tier == 'quick' else 8
+    specs = [{'kind': k, 'W': 3, 'N': N, 'extra': 1, 'seed': seed() * 100 + s, 'kills': kills, 'poison': poison}
+             for poison in ((True,) if tier == 'quick' else (True, False)) for k in ('thread', 'process', 'remote') for s in range(nseeds) for kills in (1, 2)]
+
+    def one(spec):
+        env = dict(os.environ, PYTHONPATH=':'.join([VERIF, REPO]), VERIF_REPO=REPO, PYTHONHASHSEED='0')
+        try:
+            p = subprocess.run([PY, runner, json.dumps(spec)], capture_output=True, text=True, timeout=150, env=env)
+        except subprocess.TimeoutExpired:
+            return {'spec': spec, 'outcome': 'hang', 'trace': [], 'ret': [], 'killed': [], 'alive': []}
+        for line in p.stdout.splitlines():
+            if line.startswith('TRACE '):
+                return json.loads(line[6:])
+        raise MachineryError('real pool runner failed: %s' % p.stderr[-800:])
+    with ThreadPoolExecutor(12) as ex:
+        res = list(ex.map(one, specs))
+    out = []
+    for poison in (True, False):
+        batch = [r for r in res if r['spec']['poison'] == poison]
+        if not batch:
+            continue
+        traces = [{'id': 't%d' % i, 'trace': r['trace'], 'outcome': r['outcome'], 'ret': r['ret']} for i, r in enumerate(batch)]
+        d = sub_scratch('pooltrace')
+        tf = os.path.join(d, 'traces_%s.json' % poison)
+        json.dump(traces, open(tf, 'w'))
+        rt = tlc.run('PoolTrace', cfg_text=TRACE_CFG % (N, '{4}' if poison else '{}'), workers=16, env={'TRACE_FILE': tf},
+                     must_complete=False, timeout=3000, name='trace')
+        ev.add_tlc('trace validation: %d callback traces of real pools (poison=%s) against Pool.tla' % (len(traces), poison), rt, role='trace')
+        if rt.error:
+            raise MachineryError('PoolTrace failed: %s' % rt.error)
+        acc = set(x[0] for x in rt.tags.get('ACCEPT', []))
+        for t, r in zip(traces, batch):
+            r['accepted'] = t['id'] in acc
+            if not r['accepted'] and len(drift) < 6:
+                drift.append('callback trace of a real %s pool is not a behaviour of Pool.tla: outcome %s ret %s trace %s'
+                             % (r['spec']['kind'], r['outcome'], r['ret'], r['trace']))
+            n = r['spec']['N']
+            handed = [[] for _ in range(n)]
+            for e in r['trace']:
+                if e[0] == 'enq' and 1 <= e[2] <= n:
+                    handed[e[2] - 1].append(e[1])
+            dead = sorted(set(r.get('killed', [])) | set(e[1] for e in r['trace'] if e[0] == 'died'))
+            r['obs'] = {'outcome': r['outcome'], 'ret': r['ret'], 'alive': [w for w in (1, 2, 3) if w not in dead], 'dead': dead,
+                        'refusers': [], 'handed': handed, 'answered': [[e[1], e[2]] for e in r['trace'] if e[0] == 'fin']}
+            out.append(r)
+    ev.cov['real_worker_traces'] = len(out)
+    ev.cov['real_worker_traces_accepted'] = sum(1 for r in out if r['accepted'])
+    return out
+
+
 def signature(prop, clauses, scn, obs):
-    return '%s|%s|refuse=%s|retry=%s|outcome=%s' % (prop, '+'.join(sorted(clauses)), 'yes' if scn['refuse'] else 'no',
-                                                    scn['retry'], obs['outcome'])
+    return '%s|%s|refuse=%s|retry=%s|outcome=%s%s' % (prop, '+'.join(sorted(clauses)), 'yes' if (scn['refuse'] and not scn.get('second')) else 'no',
+                                                      scn['retry'], obs['outcome'], '|second_run' if scn.get('second') else '')
 
 
 def run(prop, tier, replay=None):
@@ -330,7 +430,7 @@ def run(prop, tier, replay=None):
     for label, kw, scn, mc in _configs(tier):
         big = len(scn['W']) >= 3
         # 1. the design: exhaustive, unreduced (environment free at every label, any ready/idle order)
-        if mc:
+        if mc and not (big and prop == 'C08' and tier == 'quick'):
             cfg = mc_cfg(**kw)
             cfg = re.sub(r'(?m)^INVARIANT.*\n', '', cfg).replace('CHECK_DEADLOCK FALSE', ''.join('INVARIANT %s\n' % i for i in invs) + 'CHECK_DEADLOCK FALSE')
             r = tlc.run('PoolMC', cfg_text=cfg, coverage=(label == 'W2 N3 extra1 kill1'), name='mc', must_complete=False, timeout=3000)
@@ -368,6 +468,14 @@ def run(prop, tier, replay=None):
             rid = 'p%d' % len(records)
             records.append({'id': rid, 'scn': {'n': scn['n'], 'retry': scn['retry']}, 'obs': obs})
             meta[rid] = {'scn': scn, 'h': h, 'cis': cis, 'label': label}
+            if drv.second is not None:
+                s2 = drv.second
+                alive = obs['alive']
+                rid2 = rid + 'b'
+                records.append({'id': rid2, 'scn': {'n': s2['n'], 'retry': scn['retry']},
+                                'obs': {'outcome': s2['outcome'], 'ret': s2['ret'], 'alive': alive, 'dead': obs['dead'], 'refusers': [],
+                                        'handed': [[w for w in alive] for _ in range(s2['n'])], 'answered': []}})
+                meta[rid2] = {'scn': dict(scn, second='inputs 101.. after the first run'), 'h': h, 'cis': cis, 'label': label + ' / second run() on the same pool'}
             n_paths += 1
             mo = 'hang' if m_outcome == 'livelock' else m_outcome
             ro = obs['outcome'].split(':')[0]
@@ -378,6 +486,14 @@ def run(prop, tier, replay=None):
                     drift.append('%s: real Pool.run deviates from the TLC behaviour (model outcome %s ret %s; real outcome %s ret %s; '
                                  'call-ins model %s real %s)' % (label, m_outcome, m_ret, obs['outcome'], obs['ret'], cis[:8], drv.real_cis[:8]))
                 meta[rid]['drift'] = True
+
+    # 2b. code -> spec: REAL workers (thread/process/remote) with SIGKILLs and poison inputs; callback traces
+    real = real_worker_traces(tier, ev, drift) if (prop == 'C07' or tier == 'thorough') else []
+    for r in real:
+        rid = 'p%d' % len(records)
+        records.append({'id': rid, 'scn': {'n': r['spec']['N'], 'retry': 'T'}, 'obs': r['obs']})
+        meta[rid] = {'scn': dict(_scn((1, 2, 3), r['spec']['N'], r['spec']['extra'], True, (4,) if r['spec']['poison'] else ()), real=r['spec']),
+                     'h': r['trace'], 'cis': [], 'label': 'real %s workers seed %d kills %d' % (r['spec']['kind'], r['spec']['seed'], r['spec']['kills'])}
 
     # 3. TLC judges every real run
     fails, rj = tlc.judge('PoolJudge', records, name='judge')
@@ -395,7 +511,7 @@ def run(prop, tier, replay=None):
                                     % (m['label'], ','.join(clauses), obs['outcome'], obs['ret'], obs['alive'], m['h']),
                                     {'scn': m['scn'], 'h': m['h'], 'cis': m['cis']}))
     ndrift = sum(1 for m in meta.values() if m.get('drift'))
-    ev.cov['traces_validated_against_impl'] = len(records) - ndrift
+    ev.cov['traces_validated_against_impl'] = len(records) - ndrift - sum(1 for r in real if not r['accepted'])
     ev.cov['evaluations'] = len(records)
     ev.cov['distinct_nontrivial'] = len(set((m['label'], json.dumps(m['h'])) for m in meta.values() if any(e[1] in ('kill', 'exit') for e in m['h'])))
     ev.cov['rule'] = ('each case = one complete environment schedule (worker steps, poison deaths, kills placed at the pool\'s call-ins) '
